@@ -67,6 +67,10 @@ MUTATIONS = [
      "            merged_initial_state = deep_merge(\n                dict(daughter.get('initial_state', {})), daughter_state)"),
     ('s-branch-divider-ignored', 'C11', S, "        divider = self._get_divider()\n        if divider:", "        divider = self._get_divider() if not self.inner else None\n        if divider:"),
     ('s-quantity-not-halved', 'C11', R, "    elif isinstance(state, (float, Quantity)):\n        half = state/2", "    elif isinstance(state, (float, Quantity)):\n        half = state/2 if isinstance(state, float) else state"),
+    ('s-inplace-front-kept', 'C10', E, "                self._add_process_path(process, path, new_flow)\n                # A process that replaces another one under the same\n                # path starts afresh as well.\n                advance = self.front.pop(path, None)",
+     "                self._add_process_path(process, path, new_flow)\n                advance = None"),
+    ('s-deleted-front-kept', 'C10', E, "                del self.process_paths[path]\n                # Forget how far the process got and what it was still\n                # computing: a process created under the same path\n                # later, even in this batch, starts afresh.\n                advance = self.front.pop(path, None)",
+     "                del self.process_paths[path]\n                advance = None"),
     ('s-move-no-view-expire', 'C07', S, "                    deletions.extend(move_deletions)\n                    view_expire = True", "                    deletions.extend(move_deletions)"),
     ('s-steps-no-view-rebuild', 'C07', E, "            if view_expire:\n                self.state.build_topology_views()\n\n    def _send_updates", "            pass\n\n    def _send_updates"),
     ('w-glob-no-normalize', 'C06', T, "                    inner = normalize_path(outer + path + (child,))", "                    inner = outer + path + (child,)"),
